@@ -163,6 +163,8 @@ def r5(idx, rep):
     rep.analysed(fi)
 
     def iso(interp, args, call):
+        if args and args[0] is None:
+            return False
         return interp.choose("lines is a LineSpooler", [True, False])
 
     it = Interp(idx, types={"self": "ResultsManager"}, unknown_calls="residual", isinstance_oracle=iso,
